@@ -113,7 +113,7 @@ def model_runs(ctx):
         # the witness registers are per TLC worker: only single-worker runs carry them
         def go():
             cfg = tl.mc_cfg(ctx, name, consts, inv, symmetry=sym, witness=workers == 1)
-            res = tlc.run("Tasks", cfg, ctx.scratch, workers=workers, timeout=3000)
+            res = tlc.run("Tasks", cfg, ctx.scratch, workers=tl.tlc_workers(workers), timeout=3000)
             return ("stmt" if workers == 1 else "big", name, res, expect_unseen)
         return go
     # witnesses: 1 killed, 2 cparked, 3 two claimants, 6 head-of-line (needs an exit that suspends: not here), 8 refused
@@ -132,7 +132,7 @@ def model_runs(ctx):
             cfg = tl.mc_cfg(ctx, "c13_sim", {"Task": "{t1, t2, t3, t4, t5}", "Foreign": "{f1}", "Name": "{n1, n2, n3}",
                                              "MaxOps": "4", "MaxEnv": "2", "Kinds": '{"trig", "svc"}', "Decos": "<- DecosAll",
                                              "Ops": '{"unique", "sleep", "raise", "cancel"}'}, inv, symmetry=False)
-            res = tlc.run("Tasks", cfg, ctx.scratch, workers=4, timeout=3000,
+            res = tlc.run("Tasks", cfg, ctx.scratch, workers=tl.tlc_workers(4), timeout=3000,
                           extra=["-simulate", "num=3000", "-depth", "60", "-seed", str(ctx.seed + 1)])
             return ("sim", "c13_sim_5x3", res, None)
         runs.append(sim)
@@ -155,7 +155,8 @@ def absorb_model(ctx, outs):
             continue
         if kind == "sim":
             import re
-            m = re.search(r"(\d+) states checked, (\d+) traces generated", res.out)
+            ms_ = re.findall(r"(\d+) states checked, (\d+) traces generated", res.out)
+            m = re.match(r"(\d+) (\d+)", " ".join(ms_[-1])) if ms_ else None
             ctx.cov["simulation"] = {"run": name, "states_checked": int(m.group(1)) if m else 0,
                                      "behaviours": int(m.group(2)) if m else 0}
             if m:
